@@ -189,6 +189,9 @@ func c18SortUnderAdd(r *kit.Run, idx int64, rng *rand.Rand) {
 			for v := size; !stop.Load(); v++ {
 				s.Add(v)
 				added.Add(1)
+				if v%50 == 0 {
+					s.Synchronize() // safe to call more than once: a no-op here
+				}
 			}
 		}()
 		func() {
@@ -585,8 +588,8 @@ var setModelPartitioned = porcupine.Model{
 	Step: func(st, in, out any) (bool, any) {
 		present := st.(bool)
 		switch in.(setIn).Op {
-		case "sort":
-			return true, present // sorting changes no membership
+		case "sort", "sync":
+			return true, present // sorting / a repeated Synchronize changes no membership
 		case "add":
 			return out.(bool) == present, true
 		case "del":
@@ -604,7 +607,7 @@ var setModelWhole = porcupine.Model{
 		i := in.(setIn)
 		bit := uint32(1) << uint(i.Key)
 		switch i.Op {
-		case "sort":
+		case "sort", "sync":
 			return true, mask
 		case "add":
 			return out.(bool) == (mask&bit != 0), mask | bit
@@ -643,6 +646,10 @@ func c18History(r *kit.Run, idx int64, rng *rand.Rand) {
 				// sorting an ordered set while the others use it (Key 100/101
 				// selects the algorithm; the partitioned model ignores it)
 				plans[c] = append(plans[c], setIn{"sort", 100 + rng.IntN(2)})
+			case x == 2 && j%2 == 1:
+				// Synchronize is documented as safe to call more than once
+				// (callers that synchronize defensively)
+				plans[c] = append(plans[c], setIn{"sync", 200})
 			case x < 4:
 				plans[c] = append(plans[c], setIn{"add", k})
 			case x < 7:
@@ -683,6 +690,9 @@ func c18History(r *kit.Run, idx int64, rng *rand.Rand) {
 							} else {
 								s.SortQuick(func(a, b int) bool { return a < b })
 							}
+							return true
+						case "sync":
+							s.Synchronize()
 							return true
 						case "add":
 							return s.AddCheck(in.Key)
